@@ -150,9 +150,39 @@ def run(ctx):
     ctx.count('C25-TOTAL: differences of bounds used as a constant length in dialect STRING_SLICE methods', nd)
     # ---------------------------------------------------------------- SQLITE
     sq = repo.fn('pony.orm.dbproviders.sqlite', 'SQLiteBuilder.STRING_SLICE')
-    txt = [norm(s) for s in walk_no_nested(sq.node) if isinstance(s, ast.stmt)]
-    ok = any(t.startswith("if start is None:") and "['VALUE', None]" in t for t in txt) and any(t.startswith("if stop is None:") and "['VALUE', None]" in t for t in txt)
-    ctx.ob('C25-SQLITE.omitted-bounds-passed-as-null', sq, sq.node, ok, '' if ok else 'SQLite STRING_SLICE does not pass omitted bounds as NULL')
+    # decided per bound under the scenario "this bound was omitted": whatever expression mentioning the bound is handed to builder(..) evaluates to
+    # ['VALUE', None] -- through an if-statement that rebinds the bound, a conditional expression in the argument, or a local in between
+    from ..q import reaching_defs as _rdq, value_of_def as _vdq
+    from ..typestate import scenario_edges as _seq, eval_test as _evq
+    gsq = cg.cfg(sq)
+    def is_null(e): return isinstance(e, ast.List) and len(e.elts) == 2 and isinstance(e.elts[0], ast.Constant) and e.elts[0].value == 'VALUE' and isinstance(e.elts[1], ast.Constant) and e.elts[1].value is None
+    okb = True; whyb = ''
+    for b in sq.params[2:4]:
+        def om(text, node, b=b):
+            if text == b + ' is None': return True
+            if text == b + ' is not None': return False
+            if isinstance(node, ast.Name) and node.id == b: return False
+            return None
+        eo_b = _seq(gsq, sq.node, om, resolve=False)
+        def null_here(e, at, depth=0):
+            if is_null(e): return True
+            if isinstance(e, ast.IfExp):
+                v_ = _evq(e.test, om)
+                return v_ is not None and null_here(e.body if v_ else e.orelse, at, depth)
+            if isinstance(e, ast.Call) and dotted(e.func) == 'builder' and len(e.args) == 1: return null_here(e.args[0], at, depth)
+            if isinstance(e, ast.Name) and depth < 3:
+                ds = _rdq(gsq, at, e.id, with_params=True, edge_ok=eo_b)
+                return bool(ds) and all(d is not gsq.entry and _vdq(d, e.id) is not None and null_here(_vdq(d, e.id), d, depth + 1) for d in ds)
+            return False
+        found = False
+        for x in gsq.nodes:
+            if x.ast is None or x.kind != 'stmt': continue
+            for c in x.calls():
+                if dotted(c.func) == 'builder' and len(c.args) == 1 and any(isinstance(n_, ast.Name) and n_.id == b for n_ in ast.walk(c.args[0])):
+                    found = True
+                    if not null_here(c.args[0], x): okb = False; whyb = 'for an omitted `%s` the builder is given `%s`, which is not [\'VALUE\', None]' % (b, norm(c.args[0])[:50])
+        if not found: okb = False; whyb = whyb or 'no builder(..) call receives `%s`' % b
+    ctx.ob('C25-SQLITE.omitted-bounds-passed-as-null', sq, sq.node, okb, '' if okb else 'SQLite STRING_SLICE does not pass omitted bounds as NULL: ' + whyb)
     ps = repo.fn('pony.orm.dbproviders.sqlite', 'py_string_slice')
     rets = [s for s in walk_no_nested(ps.node) if isinstance(s, ast.Return) and s.value is not None and not (isinstance(s.value, ast.Constant) and s.value.value is None)]
     ok = len(rets) == 1 and norm(rets[0].value) == '%s[%s:%s]' % tuple(ps.params[:3])
